@@ -512,8 +512,23 @@ static int rel_observe(int from_type, int n, int nf,
 	if (!res.decided)
 	    continue;
 	++decided;
-	if (!(res.resid <= TOL_REL * fmax(1.0, res.cond)))
+	if (!(res.resid <= TOL_REL * fmax(1.0, res.cond))) {
+	    if (getenv("VT_RELDEBUG") != NULL) {
+		fprintf(stderr, "rel: %s->%s n=%d f=%d resid=%g cond=%g\n",
+			type_name(from_type), type_name(to_type), n, f,
+			res.resid, res.cond);
+		for (int i = 0; i < n; ++i)
+		    fprintf(stderr, "  z0[%d]=%g%+gi\n", i, creal(z0[f][i]),
+			    cimag(z0[f][i]));
+		for (int i = 0; i < n * n; ++i)
+		    fprintf(stderr, "  in[%d]=%.17g%+.17gi\n", i,
+			    creal(min[f][i]), cimag(min[f][i]));
+		for (int i = 0; i < (to_type == VPT_ZIN ? n : n * n); ++i)
+		    fprintf(stderr, "  out[%d]=%.17g%+.17gi\n", i,
+			    creal(m[i]), cimag(m[i]));
+	    }
 	    return 0;
+	}
     }
     return decided > 0 ? 1 : 2;
 }
